@@ -149,6 +149,10 @@ def run(rep):
     with cf.ThreadPoolExecutor(min(vlib.NCPU, len(specs))) as ex:
         for res in ex.map(lambda s: sweep(tools, W, s, rep.tier), specs):
             results.extend(res)
+    # actions inside attachment { } blocks: rejected as a whole, or an intact copy of every message survives the run and a kill before
+    # every call of it (tools/attactions.py, shared with C08)
+    import attactions
+    att_cov = attactions.stage(rep, tools, 'C02', kills=True)
     kills = 0
     corr_bad = []
     for r in results:
@@ -172,6 +176,7 @@ def run(rep):
                 'killed run must be a prefix of a run of the Lean program; non-trivial = kill points' % len(specs),
         'samples': [r for r in results if r['kill'] is not None][:3],
         'kill_points': kills,
+        'actions_inside_attachment_blocks': att_cov,
         'correspondence_mismatches': len(corr_bad),
     })
 
@@ -182,6 +187,11 @@ def replay(rep, path):
     sc = vlib.Scratch()
     tools = proc.Tools(sc)
     vlib.lean_gate(rep, 'C02', sc, [])
+    if j.get('stage') == 'attachment-actions':
+        import attactions
+        attactions.replay(tools, j)
+        rep.coverage.update({'evaluations': 1, 'distinct_nontrivial': 1})
+        return
     spec = [s for s in ws.corpus() if s.name == j.get('scenario')]
     if spec:
         scen = spec[0].build(tools)
